@@ -558,3 +558,24 @@ fn c02_so_version_2byte_separator() {
 fn c02_so_version_3byte_separator() {
     so_version_total::<3>();
 }
+
+fn so_version_concrete(name: &'static str, expect: (u32, u32, u32, u32)) {
+    let r = crate::linux::maps_reader::verif_so_version_parse(std::ffi::OsStr::new(name));
+    assert!(r == Some(expect), "version components of the mapped file name");
+    kani::cover!(true, "reached");
+}
+#[kani::proof]
+#[kani::unwind(24)]
+fn c02_so_version_name_nonascii_separator() {
+    so_version_concrete("a.so.1.2.3\u{e9}4", (1, 2, 3, 4));
+}
+#[kani::proof]
+#[kani::unwind(24)]
+fn c02_so_version_name_fourth_alnum() {
+    so_version_concrete("a.so.1.2.3.4rc5", (1, 2, 3, 4));
+}
+#[kani::proof]
+#[kani::unwind(24)]
+fn c02_so_version_name_third_alnum() {
+    so_version_concrete("a.so.1.2.3rc4", (1, 2, 3, 4));
+}
